@@ -498,6 +498,7 @@ type lazyWriter struct {
 
 func (lw *lazyWriter) Write(p []byte) (n int, err error) {
 	if lw.w == nil {
+		vhook(nil, "h.lazy.acquire", nil)
 		acquired := make(chan struct{})
 		go func() {
 			lw.withWriterFunc(func(w io.Writer) {
